@@ -33,7 +33,7 @@ package ipk
 //
 //@ inline func populateDataTar(info *nfpm.Info, tw *tar.Writer) (instSize int64, err error)
 //@   requires [C03] info != nil && tw != nil && files.SpecContentsNonNil(info.Contents)
-//@   requires nfpm.SpecPlanOK(info.Contents, !info.MTime.IsZero())
+//@   requires files.SpecPlanInputOK(info.Contents, !info.MTime.IsZero())
 //@   requires !ghostFlag("failed") && !ghostFlag("clockRead") && !ghostFlag("envRead")
 //@   ensures [C03] installed-size-is-the-payload-size: implies(err == nil, instSize == payloadSize(info.Contents, len(info.Contents)))
 //@   loop 0 (iter int, instSize int64)
@@ -41,7 +41,8 @@ package ipk
 //@     invariant [C03] index-in-range: 0 <= iter && iter <= len(info.Contents)
 //@     invariant [C06] no-failure-so-far: !ghostFlag("failed")
 //@     invariant [C07] no-clock-so-far: implies(!old(info.MTime.IsZero()), !ghostFlag("clockRead"))
-//@     invariant [C07 C11 C12] plan-still-fresh: nfpm.SpecPlanOK(info.Contents, !old(info.MTime.IsZero()))
+//@     invariant [C07 C11 C12] plan-still-fresh: !inlined() || nfpm.SpecPlanOK(info.Contents, !old(info.MTime.IsZero()))
+//@     invariant [C01 C03 C08] plan-entries-complete: inlined() || files.SpecPlanInputOK(info.Contents, !old(info.MTime.IsZero()))
 //
 //@ inline func conffiles(info *nfpm.Info) (result []byte)
 //@   loop 0 (confs []string)
